@@ -1,0 +1,6 @@
+//go:build !verif || !linux
+// +build !verif !linux
+
+package nbio
+
+func verifPoint(name string, c *Conn) {}
